@@ -638,6 +638,11 @@ def _witness(ctx):
         ctx.check("ctor_single", dict(p, seed=ctx.seed))
     for nm, D in (("Burgers", 2), ("GrayScott", 1)) + ((("Burgers", 3), ("Diffusion", 1)) if deep else ()):
         ctx.check("forced_rollout", dict(name=nm, D=D, N=SIZES[D], order=2 if nm != "Diffusion" else None, seed=ctx.seed))
+    # trajectory utilities on odd-derivative steppers, even grids, white noise (Nyquist content): never rotated away
+    for nm, D, o in (("Advection", 1, None), ("KortewegDeVries", 1, 2), ("Dispersion", 2, None)):
+        N = SIZES[D] if SIZES[D] % 2 == 0 else SIZES[D] + 1
+        ctx.check("repeat_nesting", dict(name=nm, D=D, N=N, order=o, n=3, B=2, seed=ctx.seed + 5, lite=True))
+        ctx.check("rollout_nesting", dict(name=nm, D=D, N=N, order=o, n=3, B=2, include_init=True, seed=ctx.seed + 5, lite=True))
     ctx.check("fresh_process", dict(mode="jit_first"))
     ctx.check("fresh_process", dict(mode="f32"))
     ctx.check("difficulty_big_int", dict(N=256, ncoef=9, D=1))
